@@ -13,6 +13,7 @@ bone limit, bone slots, weights, dismember alignment, set/get) is evaluated on t
 after every step and on the saved + reloaded file."""
 import concurrent.futures as cf
 import json
+import os
 import random
 import re
 
@@ -143,13 +144,15 @@ def rnd_weights(rng, nv, nb, maxw, style):
     if nb == 0:
         return bones
     for v in range(nv):
-        if rng.random() < 0.08:
+        if rng.random() < 0.08 and style != "spread4":
             continue                                  # unweighted vertex
         cnt = rng.randrange(1, maxw + 1)
         if style == "local":
             base = rng.randrange(nb)
             bs = sorted({(base + rng.randrange(0, 6)) % nb for _ in range(cnt)})
-        elif style == "spread":
+        elif style in ("spread", "spread4"):
+            if style == "spread4":
+                cnt = 4
             bs = sorted({(v * 4 + i) % nb for i in range(cnt)})
         else:
             bs = sorted(rng.sample(range(nb), min(cnt, nb)))
@@ -205,6 +208,9 @@ def gen_hist(rng, count, kind="mixed"):
             maxw = rng.choice([4, 4, 8])
             style = rng.choice(["spread", "spread", "any"])
             nt = rng.choice([nv // 2, nv, 2 * nv])
+            if ver == "SK" and rng.random() < 0.5:
+                nv, nb, maxw, style = 140, rng.choice([257, 280, 300]), 4, "spread4"   # > 256 bones in one LE partition
+                nt = 2 * nv
         else:
             nv = rng.choice([1, 2, 3, 5, 8, 13, 24, 40])
             nb = rng.choice([0, 1, 2, 3, 5, 9, 19, 30, 90])
@@ -219,8 +225,8 @@ def gen_hist(rng, count, kind="mixed"):
             if bones[b]:
                 bones[b].append((bones[b][0][0], rng.choice([-64, 32, 256])))
         ops = rnd_ops(rng, len(tris), rng.randrange(1, 8))
-        if kind == "wide" and "U" not in ops:
-            ops.append("U")
+        if kind == "wide" and (ops[0] != "U" and rng.random() < 0.6 or "U" not in ops):
+            ops.insert(0, "U")
         line = "hist ver=%s nv=%d tris=%s nb=%d w=%s api=%d ops=%s reload=%d" % (
             ver, nv, s_tris(tris), nb, s_weights(bones), api, "!".join(ops), 1 if rng.random() < 0.5 else 0)
         if ver in ("FO3", "SK") and rng.random() < 0.15:
@@ -321,6 +327,11 @@ def judge(rep, stats, case, il, crash, ml):
     f = case_facts(case)
     isteps = (il[2:] if il else "").split(" | ")
     msteps = model_steps(ml)
+    judge_steps(rep, stats, case, f, isteps, msteps, crash)
+
+
+def judge_steps(rep, stats, case, f, isteps, msteps, crash):
+    known = rep.known
     nops = len(f["ops"])
     prev = ss.parse_step(isteps[0])
     if prev is None:
@@ -406,9 +417,83 @@ def judge(rep, stats, case, il, crash, ml):
         stats["crashes"].append({"case": case, "step": "save/reload", "crash": crash})
 
 
+SAMPLES = ["TestNifFile_Skinned_SE.nif", "TestNifFile_Skinned_OB.nif", "TestNifFile_Skinned_Dynamic_SE.nif",
+           "TestNifFile_Optimize_LE_to_SE.nif", "TestNifFile_Optimize_SE_to_LE.nif", "TestNifFile_Optimize_Dynamic_LE_to_SE.nif",
+           "TestNifFile_Optimize_Dynamic_SE_to_LE.nif", "TestNifFile_Skinned_NoNiSkinDataWeights.nif"]
+
+
+def file_header(seg):
+    """'FILE ver=.. nv=.. hastris=.. bs=.. tris=.. wx=..' -> facts"""
+    kv = dict(t.split("=", 1) for t in seg.split(" ")[1:] if "=" in t)
+    bones = []
+    for b in kv.get("wx", "").split(";") if kv.get("wx", "") != "" else []:
+        lst = []
+        for e in b.split(","):
+            if e:
+                v, m, ex = e.split(":")
+                lst.append((int(v), int(m) * 2.0 ** int(ex)))
+        bones.append(lst)
+    return kv, {"ver": kv["ver"], "tris": ss.parse_tris(kv.get("tris", "")), "nv": int(kv["nv"]), "bones": bones,
+                "nonneg": all(w >= 0 for b in bones for _, w in b), "reload": False}
+
+
+def gen_file_cases(impl_bin, rng, per_shape, env):
+    """histories on the skinned shapes of the sample files (the triangle count is probed first)"""
+    probes = ["file name=%s k=%d ops=" % (n, k) for n in SAMPLES for k in (0, 1)]
+    pr = vlib.run_cases_robust(impl_bin, ["skin"], probes, timeout_per_batch=300, batch=4, env=env)
+    cases = []
+    for (c, il, crash) in pr:
+        if crash is not None or not il or not il.startswith("I=FILE"):
+            continue
+        kv, f = file_header(il[2:].split(" | ")[0])
+        if f["ver"] not in LIMIT_VERS:
+            continue
+        for _ in range(per_shape):
+            ops = rnd_ops(rng, len(f["tris"]), rng.randrange(1, 6), 2)
+            if rng.random() < 0.5:
+                ops.insert(0, "U")
+            cases.append(c[:-len("ops=")] + "ops=" + "!".join(ops))
+    return cases
+
+
+def run_file_cases(rep, stats, impl_bin, model_bin, cases, env):
+    """the model starts from the implementation's dump of the loaded state"""
+    if not cases:
+        return
+    n = max(1, min(vlib.NPROC, len(cases)))
+    chunks = [cases[k::n] for k in range(n)]
+    with cf.ThreadPoolExecutor(max_workers=n) as ex:
+        parts = list(ex.map(lambda ch: vlib.run_cases_robust(impl_bin, ["skin"], ch, timeout_per_batch=600, batch=8, env=env), chunks))
+    res = [None] * len(cases)
+    for k, r in enumerate(parts):
+        res[k::n] = r
+    mcases, keep = [], []
+    for (c, il, crash) in res:
+        if not il or not il.startswith("I=FILE"):
+            stats["harness_err"].append({"case": c, "impl": (il or "")[:200], "crash": crash})
+            continue
+        segs = il[2:].split(" | ")
+        kv, f = file_header(segs[0])
+        f["ops"] = [o for o in parse_kv(c).get("ops", "").split("!") if o]
+        mcases.append("filem ver=%s nv=%s hastris=%s bs=%s tris=%s wx=%s init=%s ops=%s" % (
+            kv["ver"], kv["nv"], kv["hastris"], kv["bs"], kv.get("tris", ""), kv.get("wx", ""), segs[1].replace(" ", "~"), "!".join(f["ops"])))
+        keep.append((c, f, segs[1:], crash))
+    mres = run_parallel(model_bin, "skin", mcases, 900, 8)
+    for (c, f, isteps, crash), (_, ml, mcrash) in zip(keep, mres):
+        if mcrash is not None or ml is None or "DRIVER-ERROR" in ml:
+            rep.violation("model oracle failed", {"case": c, "model_crash": mcrash, "model": (ml or "")[:300]}, found_input=False)
+            continue
+        stats["hist"] += 1
+        stats["files"] += 1
+        judge_steps(rep, stats, c, f, isteps, model_steps(ml), crash)
+
+
+LIMIT_VERS = ("OB", "FO3", "SK", "SSE")
+
+
 def new_stats():
     return {"raw": 0, "hist": 0, "validated": 0, "mismatch": [], "specfail": [], "crashes": [], "harness_err": [], "known": {},
-            "nontriv": set(), "dist": {}, "spec_evals": 0, "reloads": 0, "raw_fault_agreed": 0, "splits": 0}
+            "nontriv": set(), "dist": {}, "spec_evals": 0, "reloads": 0, "raw_fault_agreed": 0, "splits": 0, "files": 0}
 
 
 def run(tier, seed, replay=None):
@@ -432,8 +517,13 @@ def run(tier, seed, replay=None):
         except OSError:
             pass
         q = tier == "quick"
-        cases = corpus + gen_raw(rng, 1500 if q else 60000) + gen_hist(rng, 700 if q else 30000) + gen_hist(rng, 60 if q else 2500, "wide")
+        cases = corpus + gen_raw(rng, 8000 if q else 300000) + gen_hist(rng, 3000 if q else 80000) + gen_hist(rng, 250 if q else 5000, "wide")
     stats = new_stats()
+    env0 = {"VERIF_SAMPLES": os.path.join(vlib.REPO, "tests", "input")}
+    filecases = [c for c in cases if c.startswith("file ")]
+    cases = [c for c in cases if not c.startswith("file ")]
+    if not replay:
+        filecases += gen_file_cases(impl_bin, rng, 3 if tier == "quick" else 40, env0)
     impl = run_parallel(impl_bin, "skin", cases, 600, 400)
     model = run_parallel(model_bin, "skin", cases, 900, 400)
     for (c, il, crash), (_, ml, mcrash) in zip(impl, model):
@@ -444,6 +534,8 @@ def run(tier, seed, replay=None):
             judge(rep, stats, c, il, crash, ml)
         except Exception as ex:       # a dump that cannot be read = harness broken
             stats["harness_err"].append({"case": c, "error": repr(ex), "impl": (il or "")[:200]})
+    env = {"VERIF_SAMPLES": os.path.join(vlib.REPO, "tests", "input")}
+    run_file_cases(rep, stats, impl_bin, model_bin, filecases, env)
     for f in stats["specfail"][:10]:
         # one line per class of failure (numbers masked), the concrete numbers are in the replay file
         rep.violation("skin partition property broken after %s: %s" % (OPNAME.get(str(f.get("op", f.get("step", "")))[:1], str(f.get("step", ""))),
@@ -457,14 +549,15 @@ def run(tier, seed, replay=None):
         rep.violation("correspondence skin (Coq model SkinModel.v vs Skin.cpp / NifFile.cpp) no longer holds; theorems of Properties_C10.v no longer speak about the code",
                       {"broken": "correspondence:skin", "family": "skin", "cases": stats["mismatch"][:10]}, found_input=False)
     cov.update({
-        "evaluations": len(cases),
+        "evaluations": len(cases) + len(filecases),
         "distinct_nontrivial": len(stats["nontriv"]),
-        "rule": "raw: one Skin.cpp method on an arbitrary NiSkinPartition state (fields empty / unsorted / duplicated / out of range, strips, wrong counters, triParts of wrong size, -1 and out-of-range ids); hist: a skinned NiTriShape/BSTriShape built through NifFile's API (OB/FO3/SK/SSE, 1-140 vertices, 0-280 triangles incl. duplicates and degenerate ones, 0-300 bones, 0-8 weights per vertex, k/256 weights incl. 0 and ties) followed by 1-8 operations of U(pdateSkinPartitions) S(et) G(et) D(efault) X(delete) E(remove empty), half of them saved and reloaded; 'wide' histories have enough bones to reach every limit. non-trivial = some step changed the dump (hist) / the method changed the state (raw); distinct = distinct case lines",
-        "samples": [c[:400] for c in (cases[:2] + cases[len(cases) // 2:len(cases) // 2 + 2] + cases[-2:])],
+        "rule": "raw: one Skin.cpp method on an arbitrary NiSkinPartition state (fields empty / unsorted / duplicated / out of range, strips, wrong counters, triParts of wrong size, -1 and out-of-range ids); hist: a skinned NiTriShape/BSTriShape built through NifFile's API (OB/FO3/SK/SSE, 1-140 vertices, 0-280 triangles incl. duplicates and degenerate ones, 0-300 bones, 0-8 weights per vertex, k/256 weights incl. 0 and ties) followed by 1-8 operations of U(pdateSkinPartitions) S(et) G(et) D(efault) X(delete) E(remove empty), half of them saved and reloaded; 'wide' histories have enough bones to reach every limit; file: 1-6 operations on every skinned shape of 8 sample files (SE, OB, LE), the model starting from the implementation's dump of the loaded state. non-trivial = some step changed the dump (hist) / the method changed the state (raw); distinct = distinct case lines",
+        "samples": [c[:400] for c in (cases[:2] + cases[len(cases) // 2:len(cases) // 2 + 2] + cases[-2:] + filecases[:2])],
         "input_distribution": stats["dist"],
         "traces_validated_against_impl": stats["validated"],
         "spec_evaluated_on_impl_steps": stats["spec_evals"],
         "reloads_checked": stats["reloads"],
+        "sample_file_histories": stats["files"],
         "updates_that_split_a_partition": stats["splits"],
         "raw_faults_agreed": stats["raw_fault_agreed"],
         "correspondence_mismatches": len(stats["mismatch"]),
@@ -479,10 +572,25 @@ def run(tier, seed, replay=None):
     return rep.finish(cov, ASSUMPTIONS)
 
 
-UNPROVED = []
-MODELLED = [
-    "float weights: the model normalises over Q; the implementation's binary32 results are compared within 1e-5 (generated weights are k/256, so the sums are exact and only the division rounds)",
-    "std::sort with BoneWeightsSort: modelled as the stable insertion sort libstdc++ runs for at most 16 elements; with more than 16 weights on one vertex the order among EQUAL weights is unspecified and not modelled",
-    "save + reload (NiSkinPartition::Sync, PrepareData): not modelled in Coq; the property is evaluated on the reloaded dump by tools/skinspec.py",
+UNPROVED = [
+    "regenerated triParts (GenerateTriPartsFromTrueTriangles) names, for a shape without duplicate triangles, the partition that holds each triangle: only its range and totality are proved (C10_prepare_triparts_regenerated); the content is correspondence + spec search (and refuted for triangles in no partition: C10_get_unassigned_refuted)",
+    "DeletePartitions with an index list that is not strictly ascending (outside the documented precondition): correspondence only",
+    "PrepareTrueTriangles for partitions that still carry strips (NifFile::Load of OB files): totality is proved for strip-free partitions only; strips are covered by the raw correspondence cases and C18_strips_correct",
+    "save + reload (NiSkinPartition::Sync, PrepareData, RemoveInvalidTris) is not modelled in Coq: the property is evaluated on the reloaded dumps only",
+    "numTriangles / numStrips counters and the partition flags hasFaces/hasVertexWeights/... are modelled and compared on every case but no theorem is stated about them (C10_remove_empty_keeps_cover takes the counter invariant as a hypothesis)",
 ]
-ASSUMPTIONS = []
+MODELLED = [
+    "float weights: the model normalises over Q; the implementation's binary32 results are compared within 1e-5 (generated weights are k/256, so the sums are exact and only the division rounds). weights_normalised is a statement about exact arithmetic: PARTIAL with respect to IEEE rounding",
+    "std::sort with BoneWeightsSort: modelled as the stable insertion sort libstdc++ runs for at most 16 elements; with more than 16 weights on one vertex the order among EQUAL weights is unspecified and not modelled (generated cases have at most 8 weights per vertex)",
+    "std::unordered_map / std::set: association lists and strictly ascending lists",
+    "save + reload (NiSkinPartition::Sync, PrepareData): not modelled in Coq; the property is evaluated on the reloaded dump by tools/skinspec.py",
+    "SSE vertex data copy (NiSkinPartition::vertData, vertexDesc), lodLevel, globalVB: left out of the model (only copied)",
+]
+ASSUMPTIONS = [
+    "UpdateSkinPartitions theorems: ks_update_accepts = the shape has triangles; behind PrepareTriParts triParts has one entry per triangle and every entry is below the partition count (negative = unassigned) - met when triParts is current and in range (after SetShapePartitions / DeletePartitions / a previous UpdateSkinPartitions) or regenerated with at least one partition (C10_prepare_triparts_regenerated); the dismember list, when present, has one entry per partition (kept by every partition operation: C10_set_partitions, C10_set_default_partition, C10_delete_partitions, C10_remove_empty_partitions, C10_dismember_aligned_update); no triangle corner is 65535; partitions + triangles < 2^31. Outside it the model faults exactly where the real code crashes (known findings C10-update-without-partitions-crash, C10-dismember-misaligned-crash).",
+    "bone_slots_valid additionally assumes at most 256 bones in the partition (uint8_t slot): implied by the bone limit for OB/FO3/SSE (C10_limit_implies_slots), a real hypothesis for Skyrim LE where it is refuted without it (C10_bone_slots_valid_refuted_sk; known finding C10-le-bone-slot-wrap); at most 65536 bones per shape (uint16_t boneIndex) is built into the model's wrap",
+    "weights_normalised assumes non-negative input weights and speaks about exact rational arithmetic (partial: IEEE rounding not modelled)",
+    "SetShapePartitions: fewer than 2^31-2 partition infos and ids below 2^31-3 (no C integer conversion wraps; ids of that size would need that many PartitionBlocks anyway), and one id per triangle (otherwise GenerateTrueTrianglesFromTriParts leaves the partitions alone)",
+    "DeletePartitions: strictly ascending, non-empty index list (documented precondition); numPartitions < 2^31",
+    "generators: no corner equal to 65535 (the uint16_t loop bound of GenerateVertexMapFromTrueTriangles wraps to 0: the vertex map comes out empty, replayed in corpus/C10), fewer than 2^31 triangles per partition, fewer than 65536 vertex map entries",
+]
